@@ -629,9 +629,9 @@ func execUDFWrite(kinds []string) string {
 
 type udfService struct{ sink *kit.SinkUDFService }
 
-func (s *udfService) List() []string { return append(s.sink.List(), "boom", "peer") }
+func (s *udfService) List() []string { return append(s.sink.List(), "boom", "peer", "slowsock", "slowproc") }
 func (s *udfService) Info(name string) (udf.Info, bool) {
-	if name == "boom" || name == "peer" {
+	if name == "boom" || name == "peer" || name == "slowsock" || name == "slowproc" {
 		return udf.Info{Wants: agent.EdgeType_STREAM, Provides: agent.EdgeType_STREAM, Options: map[string]*agent.OptionInfo{}}, true
 	}
 	return s.sink.Info(name)
@@ -642,6 +642,9 @@ func (s *udfService) Create(name, taskID, nodeID string, d udf.Diagnostic, abort
 	}
 	if name == "peer" {
 		return newPeerUDF(taskID, nodeID, d, abortCallback), nil
+	}
+	if name == "slowsock" || name == "slowproc" {
+		return newSlowUDF(name, taskID, nodeID, d, abortCallback), nil
 	}
 	return s.sink.Create(name, taskID, nodeID, d, abortCallback)
 }
